@@ -169,6 +169,25 @@ def case_oracle(case):
                 return Failure("analysis-exception", f"DirectPredecessorsGetter"
                                f"({type(v).__name__}): {type(e).__name__}: {e}",
                                f"predecessors|{type(v).__name__}"), info
+        # the set-valued getter agrees with the list-valued one, with and
+        # without function definitions
+        for inc in (False, True):
+            lg = an.ListOfDirectPredecessorsGetter(include_functions=inc)
+            sg = an.DirectPredecessorsGetter(include_functions=inc)
+            for v in top:
+                try:
+                    a_, b_ = lg(v), sg(v)
+                except Exception:  # noqa: BLE001
+                    continue
+                if {id(x) for x in a_} != {id(x) for x in b_} and (
+                        frozenset(a_) != frozenset(b_)):
+                    return Failure(
+                        "predecessor-getters-disagree",
+                        f"{type(v).__name__}: DirectPredecessorsGetter("
+                        f"include_functions={inc}) gives "
+                        f"{sorted(type(x).__name__ for x in b_)}, the list "
+                        f"getter {sorted(type(x).__name__ for x in a_)}",
+                        "predecessors|" + type(v).__name__), info
         want = collections.Counter()
         klass_of = {}
         for p, path, c, klass in E:
